@@ -254,11 +254,12 @@ func init() {
 							BindVal: func(v ssa.Value) (constant.Value, bool) {
 								switch x := v.(type) {
 								case *ssa.Phi:
-									if isUnitCounter(x) {
-										if first {
-											return constant.MakeInt64(0), true
+									// "first" is the natural first iteration; for "later" every loop-carried variable that
+									// distinguishes the first iteration (i := 0; i++ / isFirst := true; … = false) takes a later value
+									if !first {
+										if v, ok := laterIterationValue(x); ok {
+											return v, true
 										}
-										return constant.MakeInt64(3), true
 									}
 								case *ssa.Extract:
 									if x.Index == 1 && IsCallOf(iqGet)(x.Tuple) {
@@ -373,7 +374,7 @@ func init() {
 		MinInst: 12,
 		Run: func(c *RuleCtx) {
 			acc := c.Fn("Association.acceptPayloadData")
-			pushTo := c.Fn("Association.pushPayloadDataToStream")
+			pushTo := c.Fn("Stream.handleData") // a delivery = the call that hands the chunk to its stream
 			credit := c.Fn("Association.getMyReceiverWindowCredit")
 			tsn := c.field("chunkPayloadData", "tsn")
 			last := c.Fn("receivePayloadQueue.getLastTSNReceived")
@@ -388,7 +389,8 @@ func init() {
 				"sna32GT": func(r int) bool { return r > 0 }, "sna32GTE": func(r int) bool { return r >= 0 },
 				"sna32EQ": func(r int) bool { return r == 0 },
 			}
-			opaque := map[*ssa.Function]bool{pushTo: true, c.Fn("Association.getOrCreateStream"): true}
+			opaque := map[*ssa.Function]bool{pushTo: true, c.Fn("Association.getOrCreateStream"): true,
+				c.Fn("receivePayloadQueue.push"): true, c.Fn("Association.abortProtocolViolation"): true}
 			for _, cr := range []int64{0, 1500} {
 				for _, known := range []bool{false, true} {
 					for _, rel := range []int{-1, 0, 1} {
@@ -428,7 +430,7 @@ func init() {
 						want := cr > 0 || (known && rel < 0)
 						why := ""
 						for _, o := range outs {
-							n := len(o.Called("Association.pushPayloadDataToStream"))
+							n := len(o.Called("Stream.handleData"))
 							if want && n != 1 {
 								why = fmt.Sprintf("a path does not pass the chunk to its stream (%d pushes)", n)
 							}
@@ -754,4 +756,44 @@ func isUnitCounter(phi *ssa.Phi) bool {
 		}
 	}
 	return zero && step
+}
+
+// laterIterationValue: for a loop-header φ with a constant entry value, the
+// value it has on iterations after the first: the constant all back edges
+// carry, or 3 for a unit counter.
+func laterIterationValue(phi *ssa.Phi) (constant.Value, bool) {
+	lp := loopBlocks(phi.Block())
+	if len(lp) == 0 {
+		return nil, false
+	}
+	var entryConst, backConst *ssa.Const
+	backSame := true
+	for i, e := range phi.Edges {
+		k, isK := e.(*ssa.Const)
+		if !lp[phi.Block().Preds[i]] {
+			if !isK || k.Value == nil {
+				return nil, false
+			}
+			entryConst = k
+			continue
+		}
+		if !isK || k.Value == nil {
+			backSame = false
+			continue
+		}
+		if backConst != nil && !constant.Compare(backConst.Value, token.EQL, k.Value) {
+			backSame = false
+		}
+		backConst = k
+	}
+	if entryConst == nil {
+		return nil, false
+	}
+	if backSame && backConst != nil && !constant.Compare(backConst.Value, token.EQL, entryConst.Value) {
+		return backConst.Value, true
+	}
+	if isUnitCounter(phi) {
+		return constant.MakeInt64(3), true
+	}
+	return nil, false
 }
